@@ -103,6 +103,7 @@ def get_next_linebox(context, linebox, position_y, bottom_space, skip_stack,
             break
 
         remove_last_whitespace(context, line)
+        linebox.width = line.width
 
         new_position_x, _, new_available_width = avoid_collisions(
             context, linebox, containing_block, outer=False)
